@@ -9,6 +9,7 @@ package main
 import (
 	"fmt"
 	"go/constant"
+	"go/types"
 	"os"
 	"regexp"
 	"sort"
@@ -291,6 +292,14 @@ func ruleWire(c *Ctx) {
 			c.degreeSearchFolded = true
 		}
 	}
+	// the interval reader, decided on all marks x numbers 1..15 x both positions by folding when it folds
+	if fn := c.fn("note", "ParseDegree"); fn != nil {
+		if problem, n, ok := c.parseDegreeByFolding(fn); ok {
+			c.site(1)
+			c.check(problem == "", "note.ParseDegree|domain", c.pos(fn.Pos()), fname(fn), fmt.Sprintf("%d spellings (6 marks x numbers 1..15 x mark first / last) folded: each is read as the interval the notation names, impossible ones are refused", n), fname(fn)+": "+problem)
+			c.parseDegreeFolded = true
+		}
+	}
 	for _, ws := range wireSpecs {
 		fn := c.fn(ws.pkg, ws.fn)
 		if fn == nil {
@@ -301,6 +310,10 @@ func ruleWire(c *Ctx) {
 		for _, nf := range ws.need {
 			c.site(1)
 			key := ws.pkg + "." + ws.fn + "|" + nf.label
+			if c.parseDegreeFolded && ws.pkg == "note" && ws.fn == "ParseDegree" && (nf.label == "contains" || nf.label == "trim" || nf.label == "bare" || nf.label == "build") {
+				c.ok(key, c.pos(fn.Pos()), fname(fn), "decided by note.ParseDegree|domain")
+				continue
+			}
 			if c.degreeSearchFolded && ws.fn == "ScaleNote.GetDegree" && nf.label != "letters" {
 				// shape facts of the search are subsumed by the decision on the whole domain
 				c.ok(key, c.pos(fn.Pos()), fname(fn), "decided by op.ScaleNote.GetDegree|domain")
@@ -805,4 +818,87 @@ func accSemi2(a string) string {
 		return "b"
 	}
 	return ""
+}
+
+// parseDegreeByFolding folds note.ParseDegree on every spelling mark x number (1..15) x position (mark first / mark last)
+// and compares the interval read with the notation: "" major/perfect, b minor (diminished on perfect numbers), bb
+// diminished, bbb doubly diminished, # augmented, ## doubly augmented; impossible combinations are errors.
+// ok=false when the function does not fold.
+func (c *Ctx) parseDegreeByFolding(fn *ssa.Function) (string, int, bool) {
+	dnames := c.enumConsts("note", "DegreeName")
+	dnameOf := map[int64]string{}
+	for k, v := range dnames {
+		dnameOf[v] = k
+	}
+	quality := func(mark string, n int) (Quality, bool) {
+		simple := (n-1)%7 + 1
+		perfect := simple == 1 || simple == 4 || simple == 5
+		switch mark {
+		case "":
+			if perfect {
+				return QPerfect, true
+			}
+			return QMajor, true
+		case "b":
+			if perfect {
+				return QDiminished, true
+			}
+			return QMinor, true
+		case "bb":
+			return QDiminished, true
+		case "bbb":
+			return QDoublyDiminished, true
+		case "#":
+			return QAugmented, true
+		case "##":
+			return QDoublyAugmented, true
+		}
+		return 0, false
+	}
+	count := 0
+	for _, mark := range []string{"", "b", "bb", "bbb", "#", "##"} {
+		for n := 1; n <= 15; n++ {
+			for _, first := range []bool{true, false} {
+				text := fmt.Sprintf("%d%s", n, mark)
+				if first {
+					text = fmt.Sprintf("%s%d", mark, n)
+				}
+				r, err := c.newFolder().foldCall(fn, []fval{{k: constant.MakeString(text), t: types.Typ[types.String]}})
+				if err != nil || len(r.tuple) != 2 || !(r.tuple[1].isNil || r.tuple[1].nonNil || r.tuple[1].known() == false) {
+					if os.Getenv("CRDCHECK_DEBUG") != "" {
+						fmt.Fprintf(os.Stderr, "parseDegreeByFolding: %q does not fold: %v %v\n", text, err, r)
+					}
+					return "", 0, false
+				}
+				succeeded := r.tuple[1].isNil
+				if !succeeded && !r.tuple[1].nonNil && r.tuple[1].known() {
+					return "", 0, false
+				}
+				count++
+				q, _ := quality(mark, n)
+				_, valid := specSize(n, q)
+				if !succeeded {
+					// an unknown error value (a package-level sentinel) counts as a refusal
+					if valid {
+						return fmt.Sprintf("%q is refused, but it denotes the %s %d", text, qualityNames[q], n), count, true
+					}
+					continue
+				}
+				d := r.tuple[0]
+				if d.fields == nil || d.fields["Value"].k == nil || d.fields["Name"].k == nil {
+					return "", 0, false
+				}
+				gv, _ := constant.Int64Val(d.fields["Value"].k)
+				gn, _ := constant.Int64Val(d.fields["Name"].k)
+				gq, known := degreeNameQuality[dnameOf[gn]]
+				if !valid {
+					return fmt.Sprintf("%q is read as %s %d, but that interval does not exist", text, dnameOf[gn], gv), count, true
+				}
+				if !known || gq != q || int(gv) != n {
+					return fmt.Sprintf("%q is read as %s %d, the notation says %s %d", text, dnameOf[gn], gv, qualityNames[q], n), count, true
+				}
+			}
+		}
+	}
+	return "", count, true
 }
